@@ -92,8 +92,24 @@ def main(argv=None):
         for cfg in c.configs_for(args.tier):
             tasks.append((n, cfg, timeout_ms, seed, 3 if args.tier == "quick" else 40))
     if args.jobs > 1 and len(tasks) > 1:
-        with mp.get_context("fork").Pool(min(args.jobs, len(tasks))) as pool:
-            results = pool.map(_task, tasks, chunksize=1)
+        # watchdog: a task that does not come back (a solver call that ignores its time limit, a worker that died) is reported
+        # as a checker fault after a generous wall limit instead of hanging the check for ever
+        limit = float(os.environ.get("VERIF_TASK_LIMIT", 1800 if args.tier == "quick" else 5400))
+        pool = mp.get_context("fork").Pool(min(args.jobs, len(tasks)))
+        try:
+            pending = [(t, pool.apply_async(_task, (t,))) for t in tasks]
+            results = []
+            deadline = time.time() + limit
+            for t, ar in pending:
+                try:
+                    results.append(ar.get(timeout=max(1.0, deadline - time.time())))
+                except mp.TimeoutError:
+                    results.append({"obligations": [], "paths": 0, "untranslatable": [], "stubs": [], "solver_s": 0.0, "violations": [], "crash": True,
+                                    "errors": [f"task did not finish within {int(limit)} s (solver call ignoring its time limit or dead worker)"],
+                                    "contract": t[0], "config": vc.cfg_id(t[1]), "cfg": t[1], "wall_s": limit, "executed": []})
+        finally:
+            pool.terminate()
+            pool.join()
     else:
         results = [_task(t) for t in tasks]
 
